@@ -172,6 +172,9 @@ func pow10(k int) *big.Int {
 }
 
 func randMag(r *rand.Rand, limit *big.Int) *big.Int {
+	if limit.Sign() <= 0 {
+		return big.NewInt(0) // nothing but zero fits (exponents far apart)
+	}
 	// magnitude classes: tiny, small, medium, large, near the limit
 	var v *big.Int
 	switch r.Intn(6) {
@@ -226,6 +229,11 @@ var decRandOps = []string{"Add", "Subtract", "Multiply", "Divide", "Compare", "E
 func decGen(r *rand.Rand) (decCase, bool) {
 	op := decRandOps[r.Intn(len(decRandOps))]
 	ea, eb := r.Intn(10), r.Intn(10)
+	wide := r.Intn(5) == 0
+	if wide {
+		// every exponent an int64 amount can have; the operands are kept small so that the results stay in the domain
+		ea, eb = r.Intn(19), r.Intn(19)
+	}
 	c := decCase{Op: op}
 	switch op {
 	case "Multiply", "PctOf":
@@ -336,6 +344,10 @@ func decGen(r *rand.Rand) (decCase, bool) {
 		// unary / precision operations
 		c.K = r.Intn(10)
 		x := randMag(r, two52)
+		if wide {
+			c.K = r.Intn(19)
+			x = big.NewInt(int64(r.Intn(9000)) - 4500)
+		}
 		if r.Intn(2) == 0 && ea > 0 {
 			// tie at a random lower precision
 			j := 1 + r.Intn(ea)
@@ -369,7 +381,9 @@ func decGen(r *rand.Rand) (decCase, bool) {
 		if te > ea && op != "RescaleDown" && op != "Downscale" && op != "Negate" && op != "Abs" &&
 			op != "PctFromAmount" && op != "PctAmount" && op != "PctFactor" {
 			lim := new(big.Int).Quo(two52, pow10(te-ea))
-			if new(big.Int).Abs(x).Cmp(lim) > 0 {
+			if lim.Sign() == 0 {
+				x = big.NewInt(0)
+			} else if new(big.Int).Abs(x).Cmp(lim) > 0 {
 				x.Mod(x, lim)
 			}
 		}
